@@ -103,6 +103,27 @@ def fill(claim, na):
         "inverse outside the safe set; the idiom tables in sa/props/C12.py.",
         "DESIGN.md section 2, C12",
     )
-    for p in ["C02", "C03", "C04", "C05", "C08", "C09", "C10",
+    claim(
+        "C02",
+        "taint/guard analysis over the lowered Cython source with declared C types: index "
+        "parameters vs sanitisers (flow-sensitive, dominators), allocation size of views "
+        "subscripted by stored indices, unsigned-comparison tautologies, cached-bound maintenance "
+        "on all paths, who-may-write (custom ast analysis + Cython lowering front end)",
+        "Decides the index-safety clause as far as it is visible in bonds.pyx (the whole BondList "
+        "class runs under boundscheck(False)/wraparound(False)): every caller-supplied atom index "
+        "of get_bonds/add_bond/remove_bond/remove_bonds_to/__getitem__ reaches a subscript or "
+        "store only through _to_positive_index/_to_positive_index_array/_to_index_array; the "
+        "sanitisers reject on both sides with live comparisons (a `< 0` test on an unsigned local "
+        "is reported - known finding); every view subscripted by a stored atom index is allocated "
+        "with the atom count, a view built from a caller object is length-checked first (known "
+        "finding: boolean mask); every site where _bonds can gain rows recomputes "
+        "_max_bonds_per_atom on all paths and the unchecked output buffers are sized by it; that "
+        "cache is written only in bonds.pyx; bond types are range-checked (known finding: no "
+        "lower bound). Not decided: observational equality of the views with a set-of-bonds model.",
+        "Trusted: the Cython lowering (types of locals), the BondList invariant 'stored index < "
+        "atom count', loop counters over a view's own shape.",
+        "DESIGN.md section 2, C02",
+    )
+    for p in ["C03", "C03", "C04", "C05", "C08", "C09", "C10",
               "C11", "C13", "C14", "C15", "C16", "C17", "C18", "C19"]:
         na(p, PENDING)
